@@ -256,6 +256,12 @@ def variants(rng, m, thorough):
         for c in sorted(cuts)[:(4 if thorough else 2)]:
             if c < len(msg):
                 out.append(('truncated', msg[:c], rng.random() < 0.8))
+                if rng.random() < 0.6:
+                    out.append(('truncated', msg[:c], 'reset'))      # the peer's RST instead of its FIN
+    # ... and a reset right after the complete message: harmless for a self-delimiting one, an
+    # error for one that is delimited by the close
+    if rng.random() < 0.4:
+        out.append(('complete', msg, 'reset'))
     return out
 
 
@@ -305,6 +311,39 @@ def check_relaxed(ctx, case, m, tag, data, eof, x):
         ctx.fail('consumed-not-message-length', 'read_body', case, 'consumed %d of %d bytes' % (x.consumed, len(data)))
 
 
+def check_reset(ctx, case, m, tag, data, x, opts):
+    """The peer ended with a reset (ECONNRESET), not with an orderly close.  A reset is never an
+    end of message: success only if the message was complete by its own framing before it."""
+    mlen = len(m.message)
+    nobody = m.framing == 'none'
+    until_close = not nobody and (m.framing == 'close' or H.relaxed_by_options(m, opts))
+    if not m.wf and 'badlength' not in m.tags:
+        return
+    if 'badlength' in m.tags:
+        until_close = not (m.method == 'HEAD' or 100 <= m.code < 200 or m.code in (204, 304))
+        if not until_close or tag != 'complete' or len(data) < len(m.head):
+            return
+    if tag == 'truncated' and len(data) >= (len(m.head) if nobody else mlen):
+        return
+    complete_by_framing = tag in ('complete', 'surplus') and not until_close
+    if complete_by_framing:
+        if x.outcome != 'ok' and not (m.coding == 'gzip-bad' and x.outcome == 'exc'):
+            ctx.fail('complete-message-error', 'read_body', case, 'a complete self-delimiting message followed by a reset ended %s %s'
+                     % (x.outcome, x.exc))
+        elif x.outcome == 'ok':
+            want = m.payload if m.coding is None else H.one_shot_decode(m.coding, m.payload)
+            if want is not None and x.body != want:
+                ctx.fail('wrong-body', 'read_body', case, 'body %r.. (%d bytes), payload %r.. (%d bytes)' % (x.body[:40], len(x.body), want[:40], len(want)))
+        return
+    # the stream stops short of a complete message (or is delimited by a close that never came)
+    if x.outcome == 'ok':
+        ctx.fail('reset-accepted', 'run_network_operation', case,
+                 'the peer reset the connection after %d bytes of a %s-delimited response (%s); reported as a successful download of %d bytes'
+                 % (len(data), 'close' if until_close else m.framing, 'stream cut short' if tag == 'truncated' else 'no close ever came', len(x.body)))
+    elif x.outcome == 'stalled':
+        ctx.fail('truncation-blocks', 'read_body', case, 'the peer reset the connection after %d bytes but the reader still waits' % len(data))
+
+
 def check_one(ctx, m, tag, data, eof, segs, x, cache, opts=(True, False)):
     """Direct property oracle on the real outcome `x` of one (stream, segmentation, options)."""
     case = {'stream': 'decode', 'msg': m.case(), 'variant': tag, 'data': data, 'eof': eof, 'segs': segs,
@@ -318,6 +357,9 @@ def check_one(ctx, m, tag, data, eof, segs, x, cache, opts=(True, False)):
         c['segs_b'] = prev[0]
         ctx.fail('segmentation-dependent', 'read_body', c,
                  'outcome differs between two segmentations of one byte stream: %r vs %r' % (str(prev[1])[:300], str(obs)[:300]))
+    if eof == 'reset':
+        check_reset(ctx, case, m, tag, data, x, opts)
+        return
     if not m.wf:
         return
     ref = H.ref_decode(m.message, m.method)
@@ -937,6 +979,9 @@ def coded_truncation_items():
             items.append((m, 'complete', msg, True, [[], list(range(1, len(msg))), [h + 1]]))
             for c in range(h + 1, len(msg)):
                 items.append((m, 'truncated', msg[:c], True, [[], [h], list(range(h, c))]))
+                if c % 7 == 0:
+                    items.append((m, 'truncated', msg[:c], 'reset', [[], [h]]))
+            items.append((m, 'complete', msg, 'reset', [[], [h + 1]]))
     return items
 
 
@@ -961,7 +1006,7 @@ def fixed_file_sequences():
 def fixed_messages():
     """Hand-written messages at the decision points of the framing rules."""
     mk = _mk
-    return [
+    msgs = [
         mk(b'HTTP/1.1 200 OK\r\nContent-Length: 3\r\n\r\n', b'abc'),
         mk(b'HTTP/1.1 200 OK\r\nContent-Length: 0\r\n\r\n', b''),
         mk(b'HTTP/1.1 304 Not Modified\r\nContent-Length: 5\r\n\r\n', code=304, framing='none'),
@@ -975,6 +1020,7 @@ def fixed_messages():
         mk(b'HTTP/1.1 200 OK\r\nTransfer-Encoding: gzip\r\nTransfer-Encoding: chunked\r\n\r\n', b'3\r\nabc\r\n0\r\n\r\n', b'abc', framing='chunked'),
         mk(b'HTTP/1.1 200 OK\r\nContent-Length: 9\r\nTransfer-Encoding: chunked\r\n\r\n', b'3;x=y\r\nabc\r\n0\r\nT: 1\r\n\r\n', b'abc', framing='chunked'),
         mk(b'HTTP/1.0 200 OK\r\n\r\n', b'until close', framing='close', version='HTTP/1.0'),
+        mk(b'HTTP/1.1 200 OK\r\nContent-Length: nonsense\r\n\r\n', b'read until close', framing='close', wf=False),
         # obs-fold on the framing fields, continuation starting with SP and with HTAB
         mk(b'HTTP/1.1 200 OK\r\nTransfer-Encoding:\r\n\tchunked\r\n\r\n', b'3\r\nabc\r\n0\r\n\r\n', b'abc', framing='chunked'),
         mk(b'HTTP/1.1 200 OK\r\nTransfer-Encoding:\r\n chunked\r\n\r\n', b'3\r\nabc\r\n0\r\n\r\n', b'abc', framing='chunked'),
@@ -994,6 +1040,10 @@ def fixed_messages():
         mk(b'HTTP/1.1 200 OK\nContent-Length:2\n\n', b'ok'),
         mk(b'HTTP/1.1 200 OK\r\nX: a\r\n b\r\nContent-Length: 1\r\n\r\n', b'z'),
     ]
+    for m in msgs:
+        if b'nonsense' in m.head:
+            m.tags.append('badlength')
+    return msgs
 
 
 C04_ONLY = {'notified-not-message'}     # a C04 statement; C08's co-simulation still compares the notified bytes
@@ -1038,12 +1088,18 @@ def _run(ctx, pid='C08'):
             items.append((m, 'surplus', msg + b'XY', False, [[], list(range(1, n + 2)), [n], [n + 1]]))
         for c in range(0, n, 1 if thorough else 3):
             items.append((m, 'truncated', msg[:c], True, [[], list(range(1, c))]))
+        # the RESET ending next to the EOF ending: in the head, in the body / chunk, right after the message
+        for c in sorted({5, len(m.head) - 2, len(m.head), len(m.head) + 1, n - 3, n - 1, n}):
+            if 0 <= c <= n:
+                items.append((m, 'truncated' if c < n else 'complete', msg[:c], 'reset', [[], list(range(1, c))]))
         # the Stream options are a full dimension: every framing under every (keep_alive, ignore_length)
         for opts in H.OPTS[1:]:
             for eof in ((True,) if m.framing == 'close' else (True, False)):
                 items.append((m, 'complete', msg, eof, [[], list(range(1, n)), [len(m.head)], [n - 1]], opts))
                 if m.framing != 'close':
                     items.append((m, 'surplus', msg + b'XY', eof, [[], list(range(1, n + 2)), [n]], opts))
+            items.append((m, 'complete', msg, 'reset', [[], [len(m.head)]], opts))
+            items.append((m, 'truncated', msg[:n - 1], 'reset', [[], [len(m.head)]], opts))
             for c in sorted({len(m.head) - 2, len(m.head), len(m.head) + 1, n - 3, n - 1}):
                 if 0 <= c < n:
                     items.append((m, 'truncated', msg[:c], True, [[], list(range(1, c))], opts))
@@ -1052,7 +1108,7 @@ def _run(ctx, pid='C08'):
     ctx.note('t_fixed', round(time.time() - t0, 1))
     # generated messages
     batch = []
-    total = ctx.scale(750, 5000)
+    total = ctx.scale(520, 4000)
     for i in range(total):
         m = H.gen_message(rng)
         for tag, data, eof in variants(rng, m, thorough):
